@@ -31,6 +31,7 @@ type Opts struct {
 	NoIgnoreTag bool // never put gomacro:"ignore" on a JSON-visible field (C03/C04 domain note)
 	JSONSafe    bool // only shapes whose Go JSON encoding round-trips (no bool/float map keys, no embedded time …)
 	EnumStress  bool // every enum declaration style of C10
+	UnionStress bool // near misses, foreign implementers, embedded interfaces, zero-method interfaces (C11)
 	MaxDecls    int
 	MinDecls    int
 	FixedArrays bool
@@ -613,12 +614,27 @@ func (g *gen) addUnion(pkg *Pkg, file *File) *tinfo {
 	}
 	nm := rapid.IntRange(1, 2).Draw(t, "nMarkers")
 	d := &Decl{Kind: KUnion, Name: name}
+	if g.o.UnionStress && rapid.IntRange(0, 9).Draw(t, "zeroMethods") == 0 && !g.hasGenericIn(pkg) {
+		nm = 0
+		g.o.class("union:zero_method_interface")
+	}
+	exportedMarkers := g.o.UnionStress && rapid.IntRange(0, 2).Draw(t, "exportedMarkers") == 0
 	for i := 0; i < nm; i++ {
 		m := "is" + name
+		if exportedMarkers {
+			m = "Is" + strings.ToUpper(name[:1]) + name[1:]
+		}
 		if i > 0 {
 			m = fmt.Sprintf("mark%s%d", name, i)
 		}
 		d.Methods = append(d.Methods, m)
+	}
+	if g.o.UnionStress && nm > 0 && rapid.IntRange(0, 5).Draw(t, "embedItf") == 0 {
+		its := g.candidates(pkg, func(x *tinfo) bool { return x.pkg == pkg && x.cat == "union" && len(x.d.Methods) > 0 })
+		if len(its) > 0 {
+			d.Embeds = append(d.Embeds, its[rapid.IntRange(0, len(its)-1).Draw(t, "embedItfRef")].d.Name)
+			g.o.class("union:embeds_interface")
+		}
 	}
 	ti := &tinfo{cat: "union", hasUnion: true}
 	nMembers := rapid.IntRange(1, 4).Draw(t, "nMembers")
@@ -632,16 +648,92 @@ func (g *gen) addUnion(pkg *Pkg, file *File) *tinfo {
 			continue
 		}
 		seen[m] = true
-		for _, meth := range d.Methods {
-			m.d.Impl = append(m.d.Impl, Method{Name: meth})
+		for _, meth := range g.fullMethodSet(pkg, d) {
+			m.d.Impl = appendMethod(m.d.Impl, Method{Name: meth})
 		}
 		ti.unsupp = ti.unsupp || m.unsupp
 	}
-	if len(seen) == 0 {
+	if g.o.UnionStress && nm > 0 {
+		// near misses: pointer receivers, partial method sets, implementers in another package
+		for k := 0; k < 2; k++ {
+			switch rapid.IntRange(0, 5).Draw(t, "nearMiss") {
+			case 0: // all methods with pointer receivers
+				m := cands[rapid.IntRange(0, len(cands)-1).Draw(t, "ptrMember")]
+				if !seen[m] && !hasAnyMethod(m.d, d.Methods) {
+					seen[m] = true
+					for _, meth := range g.fullMethodSet(pkg, d) {
+						m.d.Impl = appendMethod(m.d.Impl, Method{Name: meth, Ptr: true})
+					}
+					g.o.class("union:pointer_receiver_near_miss")
+				}
+			case 1: // only part of the method set
+				m := cands[rapid.IntRange(0, len(cands)-1).Draw(t, "partialMember")]
+				if !seen[m] && nm >= 2 && !hasAnyMethod(m.d, d.Methods) {
+					seen[m] = true
+					m.d.Impl = appendMethod(m.d.Impl, Method{Name: d.Methods[0]})
+					g.o.class("union:partial_method_set_near_miss")
+				}
+			case 2: // implementer declared in another package (needs exported markers)
+				if exportedMarkers && len(d.Embeds) == 0 {
+					foreign := g.candidates(pkg, func(x *tinfo) bool { return x.pkg != pkg && x.cat == "struct" && x.d.Kind == KStruct })
+					if len(foreign) > 0 {
+						f := foreign[rapid.IntRange(0, len(foreign)-1).Draw(t, "foreignMember")]
+						for _, meth := range d.Methods {
+							f.d.Impl = appendMethod(f.d.Impl, Method{Name: meth})
+						}
+						g.o.class("union:implementer_in_other_package")
+					}
+				}
+			}
+		}
+	}
+	if len(seen) == 0 && !(g.o.UnionStress && rapid.IntRange(0, 7).Draw(t, "memberless") == 0) {
 		m := g.addStruct(pkg, file, true)
-		for _, meth := range d.Methods {
-			m.d.Impl = append(m.d.Impl, Method{Name: meth})
+		for _, meth := range g.fullMethodSet(pkg, d) {
+			m.d.Impl = appendMethod(m.d.Impl, Method{Name: meth})
 		}
 	}
 	return g.newDecl(pkg, file, d, ti)
+}
+
+func appendMethod(ms []Method, m Method) []Method {
+	for _, x := range ms {
+		if x.Name == m.Name {
+			return ms
+		}
+	}
+	return append(ms, m)
+}
+
+func hasAnyMethod(d *Decl, names []string) bool {
+	for _, m := range d.Impl {
+		for _, n := range names {
+			if m.Name == n {
+				return true
+			}
+		}
+	}
+	return false
+}
+
+func (g *gen) hasGenericIn(pkg *Pkg) bool {
+	for _, ti := range g.types {
+		if ti.pkg == pkg && (ti.cat == "generic" || ti.cat == "inst") {
+			return true
+		}
+	}
+	return false
+}
+
+// fullMethodSet returns the methods of an interface declaration including embedded local interfaces.
+func (g *gen) fullMethodSet(pkg *Pkg, d *Decl) []string {
+	out := append([]string{}, d.Methods...)
+	for _, e := range d.Embeds {
+		for _, ti := range g.types {
+			if ti.pkg == pkg && ti.d.Name == e {
+				out = append(out, g.fullMethodSet(pkg, ti.d)...)
+			}
+		}
+	}
+	return out
 }
